@@ -443,6 +443,22 @@ func runC07(c *ev.Ctx) {
 			}
 		}
 	}
+	// a stream of exactly the required length whose last bytes arrive together with io.EOF (as
+	// iotest.DataErrReader, gzip and HTTP bodies do): everything required was delivered, the rule decides
+	{
+		r := gen.NewRng(gen.Mix(seed, 7780))
+		for _, name := range seqWFs {
+			w := workflows[name]
+			for k, pl := range []mon.ChunkPlan{{Kind: "whole", EOFWithLast: true}, {Kind: "fixed", Size: 4096, EOFWithLast: true}} {
+				m := baseMatrix(r, w.S, w.Items)
+				for i := 0; i < w.Items; i++ {
+					setPassCount(r, m, i, oracle.Threshold(w.S)-k*(i%2))
+				}
+				id++
+				scns = append(scns, Scn{ID: id, WF: name, Stream: Stream{Kind: "matrix", Seed: r.U64(), Matrix: m, Tail: "none"}, Stub: true, Chunk: pl, Note: fmt.Sprintf("exact-length stream, final read returns data+EOF (%s/%d): uniformity-or-count decides", pl.Kind, pl.Size)})
+			}
+		}
+	}
 	// heavy real runs first so they overlap with the stub sweep
 	sort.SliceStable(scns, func(a, b int) bool { return !scns[a].Stub && scns[b].Stub })
 	var heavy, light []Scn
@@ -1667,6 +1683,20 @@ func runC14(c *ev.Ctx) {
 		add("Period", st, "period "+clip(st.Period, 24)+fmt.Sprintf("(%dB)", len(st.Period)/2))
 		add("PeriodFast", st, "period "+clip(st.Period, 24)+fmt.Sprintf("(%dB)", len(st.Period)/2))
 	}
+	// history: a detection on a healthy source that stays readable first, then - in the same process -
+	// degenerate sources (whatever a workflow keeps from an earlier call must not be what gets judged)
+	preStep := map[int]bool{}
+	for ci, pr := range [][2]string{{"PeriodFast", "PeriodFast"}, {"PeriodFast", "Period"}, {"Period", "PeriodFast"}, {"PeriodFast", "PowerOnFast"}, {"PowerOnFast", "PeriodFast"}} {
+		chain := fmt.Sprintf("c14chain%d", ci)
+		hw := workflows[pr[0]]
+		id++
+		preStep[id] = true
+		scns = append(scns, Scn{ID: id, WF: pr[0], Stream: Stream{Kind: "prng", Seed: gen.Mix(seed, 1499, uint64(ci)), Extra: 4 * hw.S * hw.B}, Chunk: mon.ChunkPlan{Kind: "whole"}, Chain: chain, Note: chain + " step1: healthy source with plenty of data left"})
+		for k, st := range []Stream{consts[0], consts[0xFF], consts[0xA5], periodic[ci%len(periodic)], periodic[(ci+7)%len(periodic)]} {
+			id++
+			scns = append(scns, Scn{ID: id, WF: pr[1], Stream: st, Chunk: mon.ChunkPlan{Kind: "whole"}, Chain: chain, Note: fmt.Sprintf("%s step%d after a healthy %s: %s %s", chain, k+2, pr[0], st.Kind, clip(st.Period, 16)+fmt.Sprintf("%02x", st.Byte))})
+		}
+	}
 	// the degenerate stream starts at a non-zero position of a seekable reader: good data in front of it
 	// (already consumed) must not be what gets judged
 	// (the prefix is PRNG data chosen so that the periodic detection accepts it on its own)
@@ -1808,6 +1838,14 @@ func runC14(c *ev.Ctx) {
 	all := append(append(append(append([]Scn{}, scns...), heavy...), heavySingles...), scns386...)
 	for _, sc := range all {
 		r := res[sc.ID]
+		if preStep[sc.ID] {
+			// the healthy first step is history, not a case: any verdict is legitimate, it only has to return
+			if r != nil && r.Status != "returned" && r.Status != "timeout" {
+				c.Violation(fmt.Sprintf("%s:%s:%s", sc.WF, sc.Note, r.Status), "did not return normally on a healthy source: "+clip(r.Crash, 1200), "wf", sc)
+			}
+			c.Count("history_chains", 1)
+			continue
+		}
 		if r == nil {
 			c.Inconclusive("no result: " + sc.Note)
 			continue
